@@ -1,0 +1,58 @@
+//! Verification hooks (only compiled with `--cfg endorpersand_lc3_ensemble_verif`).
+//!
+//! These hooks let an external harness decide two sources of nondeterminism
+//! on the calling thread:
+//! - the values sampled by [`crate::sim::device::TimerDevice`], and
+//! - the moment just before the keyboard/display devices try to take their buffer lock.
+//!
+//! With no hook installed, behaviour is identical to a build without the cfg.
+use std::cell::RefCell;
+
+/// The buffered device about to try its lock.
+#[derive(Debug, Clone, Copy, PartialEq, Eq)]
+pub enum Device {
+    /// [`crate::sim::device::BufferedKeyboard`]
+    Keyboard,
+    /// [`crate::sim::device::BufferedDisplay`]
+    Display
+}
+
+type TimerFn = Box<dyn FnMut(u32, u32, bool) -> Option<u32>>;
+type LockFn = Box<dyn FnMut(Device)>;
+
+thread_local! {
+    static TIMER_SAMPLER: RefCell<Option<TimerFn>> = const { RefCell::new(None) };
+    static LOCK_PROBE: RefCell<Option<LockFn>> = const { RefCell::new(None) };
+}
+
+/// Installs (or removes) the timer sampler for the current thread.
+///
+/// The sampler receives `(start, end, end_inclusive)` and may return the sample to use;
+/// `None` falls back to the timer's own RNG.
+pub fn set_timer_sampler(f: Option<TimerFn>) {
+    TIMER_SAMPLER.with(|s| *s.borrow_mut() = f);
+}
+/// Installs (or removes) the lock probe for the current thread.
+///
+/// The probe is called immediately before a buffered device attempts `try_write` on its buffer.
+pub fn set_lock_probe(f: Option<LockFn>) {
+    LOCK_PROBE.with(|s| *s.borrow_mut() = f);
+}
+
+pub(crate) fn timer_sample(start: u32, end: u32, end_incl: bool) -> Option<u32> {
+    TIMER_SAMPLER.with(|s| match s.borrow_mut().as_mut() {
+        Some(f) => f(start, end, end_incl),
+        None => None
+    })
+}
+pub(crate) fn lock_probe(dev: Device) {
+    // Take the probe out while it runs so that a probe which itself touches a device does not re-enter.
+    let taken = LOCK_PROBE.with(|s| s.borrow_mut().take());
+    if let Some(mut f) = taken {
+        f(dev);
+        LOCK_PROBE.with(|s| {
+            let mut slot = s.borrow_mut();
+            if slot.is_none() { *slot = Some(f); }
+        });
+    }
+}
